@@ -1,7 +1,7 @@
 (* Proofs/IdxWidthP.v — the index dtype never changes a coordinate: every intermediate of the
    computations of Model/IdxWidth.v lies in the range of the stored type, or a guard fires;
    and the places where that is false of the code as it stands (refutations with witnesses). *)
-From Coq Require Import ZArith List Bool Lia ZifyBool.
+From Coq Require Import ZArith List Bool Lia ZifyBool FinFun.
 From Verif Require Import Py MachInt S_idxwidth IdxWidth.
 Import ListNotations.
 Open Scope Z_scope.
@@ -352,102 +352,59 @@ Proof.
   destruct (roll_rows (DInt t) rows) as [x|e]; cbn [rmap] in H2; [exact H2|discriminate].
 Qed.
 
-(* ------------------------------------------------------------------ getitem: (coords - start) // step *)
+(* ------------------------------------------------------------------ getitem: (coords.astype(intp) - start) // step
+   Since 0a2ad47 the map is computed in intp: the stored dtype no longer enters (D6 repaired). *)
 (* what normalize_index leaves in a slice facing an axis of extent n *)
 Definition norm_slice (n start step : Z) : Prop :=
   (0 < step /\ 0 <= start <= n) \/ (step < 0 /\ -1 <= start < n).
 
-(* the one condition the stored dtype must meet: the step itself is representable
-   (fails for a negative step on an unsigned type — finding D6 — and for |step| beyond the type) *)
-Definition getitem_clause (t : ity) (step : Z) : bool := fits (DInt t) step.
+Theorem width_irrelevant_getitem_proof t start stop step c :
+  m_getitem (DInt t) start stop step c = m_getitem DInf start stop step c.
+Proof. reflexivity. Qed.
 
-Lemma ilo_signed_neg t : 0 < bits t -> sg t = true -> ilo t = - ihi t - 1 /\ ilo t <= -1.
-Proof.
-  intros Hb Hs. unfold ilo, ihi. rewrite Hs. pose proof (pow2_pos (bits t - 1) ltac:(lia)). lia.
-Qed.
+Lemma wr_i64 z : - 2 ^ 63 <= z < 2 ^ 63 -> wr (DInt i64) z = z.
+Proof. intros H. apply wr_fits; [cbn; lia|]. apply fits_iff. cbn. lia. Qed.
 
-Theorem width_irrelevant_getitem_partial_proof t n start stop step c :
-  std t -> can_store (DInt t) n = true -> norm_slice n start step -> coords_in n c ->
-  getitem_clause t step = true ->
-  rmap tv (m_getitem (DInt t) start stop step c) = rmap tv (m_getitem DInf start stop step c).
+(* and nothing wraps in intp either: the result is the mathematical (c - start) / step *)
+Theorem getitem_exact_proof d n start stop step c :
+  norm_slice n start step -> coords_in n c -> n < 2 ^ 63 -> - 2 ^ 63 <= step < 2 ^ 63 ->
+  m_getitem d start stop step c =
+  Ok (mkT (DInt i64) (map (fun x => (x - start) / step) (filter (sel_mask start stop step) c))).
 Proof.
-  intros St Hn Hsl Hc Hst. pose proof (std_pos t St) as Hb.
-  unfold can_store, s_can_store in Hn. unfold getitem_clause in Hst.
-  assert (Hstart : fits (DInt t) start = true).
-  { destruct Hsl as [[Hp Hs]|[Hp Hs]].
-    - apply (fits_le t n); auto.
-    - assert (sg t = true).
-      { apply fits_iff in Hst. unfold ilo in Hst. destruct (sg t); [reflexivity|lia]. }
-      destruct (ilo_signed_neg t Hb H) as [_ Hl].
-      apply fits_iff. apply fits_iff in Hn. lia. }
-  unfold m_getitem, s_getitem_map, arr_py. cbn [tdt tv]. rewrite Hstart. cbn [bind tdt tv].
-  rewrite Hst. cbn [fits bind tdt tv rmap]. f_equal. rewrite !map_map.
+  intros Hsl Hc Hn Hst.
+  unfold m_getitem, s_getitem_map, arr_py, astype. cbn [bind tdt tv].
+  assert (Fs : fits (DInt i64) start = true) by (apply fits_iff; cbn; destruct Hsl; lia).
+  assert (Fp : fits (DInt i64) step = true) by (apply fits_iff; cbn; lia).
+  rewrite Fs. cbn [bind tdt tv]. rewrite Fp. f_equal. f_equal. rewrite !map_map.
   assert (Hf : Forall (fun x => 0 <= x < n /\ sel_mask start stop step x = true)
                       (filter (sel_mask start stop step) c)).
   { apply Forall_forall. intros x Hx. apply filter_In in Hx. destruct Hx as [Hi Hm].
     split; [|exact Hm]. unfold coords_in in Hc. rewrite Forall_forall in Hc. apply Hc, Hi. }
   eapply map_ext_Forall; [|exact Hf]. cbn beta. intros x [Hx Hm].
-  change (wr DInf (np_div (wr DInf (x - start)) step)) with (np_div (x - start) step).
-  apply fits_iff in Hn. pose proof (ilo_nonpos t Hb) as Hlo.
+  rewrite (wr_i64 x) by lia.
   unfold sel_mask in Hm. unfold np_div.
   destruct Hsl as [[Hp Hs]|[Hp Hs]].
   - destruct (Z.ltb_spec 0 step); [|lia].
     assert (start <= x) by lia.
-    assert (F1 : fits (DInt t) (x - start) = true) by (apply fits_iff; lia).
-    rewrite (wr_fits t _ Hb F1). destruct (Z.eqb_spec step 0); [lia|].
-    apply wr_fits; [exact Hb|]. apply fits_iff.
+    rewrite (wr_i64 (x - start)) by lia. destruct (Z.eqb_spec step 0); [lia|].
+    apply wr_i64.
     assert (0 <= (x - start) / step <= x - start).
     { split; [apply Z.div_pos; lia|]. apply Z.div_le_upper_bound; [lia|]. nia. }
     lia.
   - destruct (Z.ltb_spec 0 step); [lia|].
     assert (x <= start) by lia.
-    assert (Hsg : sg t = true).
-    { apply fits_iff in Hst. unfold ilo in Hst. destruct (sg t); [reflexivity|lia]. }
-    destruct (ilo_signed_neg t Hb Hsg) as [Hil _].
-    assert (F1 : fits (DInt t) (x - start) = true) by (apply fits_iff; lia).
-    rewrite (wr_fits t _ Hb F1). destruct (Z.eqb_spec step 0); [lia|].
-    apply wr_fits; [exact Hb|]. apply fits_iff.
+    rewrite (wr_i64 (x - start)) by lia. destruct (Z.eqb_spec step 0); [lia|].
+    apply wr_i64.
     assert (0 <= (x - start) / step <= start - x).
     { rewrite <- (Z.div_opp_opp (x - start) step) by lia.
       split; [apply Z.div_pos; lia|]. apply Z.div_le_upper_bound; [lia|]. nia. }
     lia.
 Qed.
 
-(* when the step is not representable the call raises OverflowError — never a wrapped value,
-   but not the ValueError the property allows either *)
-Theorem getitem_unrepresentable_step_proof t start stop step c :
-  getitem_clause t step = false ->
-  m_getitem (DInt t) start stop step c = Raise OverflowError.
-Proof.
-  intros H. unfold getitem_clause in H.
-  unfold m_getitem, s_getitem_map, arr_py. cbn [tdt tv].
-  destruct (fits (DInt t) start); cbn [bind tdt]; [rewrite H|]; reflexivity.
-Qed.
-
-(* the full statement (no clause) is false: uint8 coordinates, x[::-1] (finding D6) *)
-Theorem getitem_refuted_proof :
-  exists t n start stop step c,
-    std t /\ can_store (DInt t) n = true /\ norm_slice n start step /\ coords_in n c /\
-    sg t = false /\ step < 0 /\
-    rmap tv (m_getitem (DInt t) start stop step c) <> rmap tv (m_getitem DInf start stop step c) /\
-    m_getitem (DInt t) start stop step c <> Raise ValueError.
-Proof.
-  exists u8, 100, 99, (-101), (-1), [0; 5; 99].
-  repeat split; try reflexivity; try lia.
-  - unfold std; cbn; lia.
-  - right; lia.
-  - repeat constructor; lia.
-  - vm_compute. congruence.
-  - vm_compute. congruence.
-Qed.
-
 Example width_irrelevant_getitem_nonvacuous :
-  std i8 /\ can_store (DInt i8) 100 = true /\ norm_slice 100 99 (-3) /\ coords_in 100 [0; 5; 96; 99] /\
-  getitem_clause i8 (-3) = true /\
-  rmap tv (m_getitem (DInt i8) 99 (-101) (-3) [0; 5; 96; 99]) = Ok [33; 1; 0].
-Proof.
-  repeat split; try reflexivity; [unfold std; cbn; lia|right; lia|repeat constructor; lia].
-Qed.
+  norm_slice 100 99 (-3) /\ coords_in 100 [0; 5; 96; 99] /\
+  rmap tv (m_getitem (DInt u8) 99 (-101) (-3) [0; 5; 96; 99]) = Ok [33; 1; 0].
+Proof. repeat split; try reflexivity; [right; lia|repeat constructor; lia]. Qed.
 
 (* ------------------------------------------------------------------ reshape: dtype re-choice *)
 Lemma zmax_ge l x : In x l -> x <= zmax l.
@@ -557,62 +514,34 @@ Example width_irrelevant_reduce_nonvacuous :
                 (repeat 1 (Z.to_nat 600)) = Ok [(0, 200); (1, 200); (2, 200)].
 Proof. vm_compute. reflexivity. Qed.
 
-(* ------------------------------------------------------------------ triu / tril: coords[-2] + k *)
-(* clause: k is representable and so is (largest row coordinate) + k *)
-Definition triu_clause (t : ity) (nr k : Z) : bool := fits (DInt t) k && fits (DInt t) (nr - 1 + k).
-
-Lemma tri_added t nr r k :
-  0 < bits t -> coords_in nr r -> triu_clause t nr k = true ->
-  arr_py Z.add (mkT (DInt t) r) k = Ok (mkT (DInt t) (map (fun x => x + k) r)).
-Proof.
-  intros Hb Hr Hc. unfold triu_clause in Hc. apply andb_true_iff in Hc. destruct Hc as [Fk Fn].
-  unfold arr_py. cbn [tdt tv]. rewrite Fk. f_equal. f_equal.
-  eapply map_ext_Forall; [|exact Hr]. cbn beta. intros x Hx.
-  apply wr_fits; [exact Hb|]. eapply fits_between; [exact Fk|exact Fn|lia].
-Qed.
-
-Theorem width_irrelevant_triu_partial_proof t nr r c k :
-  std t -> coords_in nr r -> triu_clause t nr k = true ->
+(* ------------------------------------------------------------------ triu / tril: coords[-2].astype(int64) + k
+   Since 972d3f2 both sides are compared in int64: the stored dtype no longer enters. *)
+Theorem width_irrelevant_triu_tril_proof t r c k :
   m_triu (DInt t) r c k = m_triu DInf r c k /\ m_tril (DInt t) r c k = m_tril DInf r c k.
-Proof.
-  intros St Hr Hc. pose proof (std_pos t St) as Hb.
-  unfold m_triu, m_tril, s_triu_mask, s_tril_mask.
-  rewrite (tri_added t nr r k Hb Hr Hc). unfold arr_py. cbn [tdt tv fits bind].
-  unfold cmp_arr. cbn [tv]. split; reflexivity.
-Qed.
+Proof. split; reflexivity. Qed.
 
-Theorem triu_unrepresentable_k_proof t r c k :
-  fits (DInt t) k = false ->
-  m_triu (DInt t) r c k = Raise OverflowError /\ m_tril (DInt t) r c k = Raise OverflowError.
+(* and the int64 comparison is the mathematical one *)
+Theorem triu_tril_exact_proof d nr nc r c k :
+  coords_in nr r -> coords_in nc c -> nr < 2 ^ 62 -> nc < 2 ^ 63 -> - 2 ^ 62 <= k <= 2 ^ 62 ->
+  m_triu d r c k = Ok (map (fun p => fst p + k <=? snd p) (combine r c)) /\
+  m_tril d r c k = Ok (map (fun p => fst p + k >=? snd p) (combine r c)).
 Proof.
-  intros H. unfold m_triu, m_tril, s_triu_mask, s_tril_mask, arr_py. cbn [tdt]. rewrite H. split; reflexivity.
-Qed.
-
-(* D6: unsigned coordinates and a negative k — OverflowError *)
-Theorem triu_refuted_unsigned_proof :
-  exists t nr r c k, std t /\ coords_in nr r /\ can_store (DInt t) nr = true /\ sg t = false /\ k < 0 /\
-    m_triu (DInt t) r c k = Raise OverflowError /\ m_triu DInf r c k = Ok [true; false].
-Proof.
-  exists u8, 5, [0; 4], [0; 1], (-1). repeat split; try reflexivity; try lia.
-  - unfold std; cbn; lia.
-  - repeat constructor; lia.
-Qed.
-
-(* new finding: k is representable but coords + k wraps — a silently wrong mask *)
-Theorem triu_refuted_wrap_proof :
-  exists t nr r c k m, std t /\ coords_in nr r /\ can_store (DInt t) nr = true /\ fits (DInt t) k = true /\
-    m_triu (DInt t) r c k = Ok m /\ m_triu DInf r c k <> Ok m.
-Proof.
-  exists i8, 120, [100; 0], [5; 110], 100, [true; true]. repeat split; try reflexivity; try lia.
-  - unfold std; cbn; lia.
-  - repeat constructor; lia.
-  - vm_compute. congruence.
+  intros Hr Hc Hnr Hnc Hk.
+  assert (Fk : fits (DInt i64) k = true) by (apply fits_iff; cbn; lia).
+  assert (Er : map (fun x => wr (DInt i64) (wr (DInt i64) x + k)) r = map (fun x => x + k) r).
+  { eapply map_ext_Forall; [|exact Hr]. cbn beta. intros x Hx. rewrite (wr_i64 x) by lia. apply wr_i64. lia. }
+  assert (Ec : map (wr (DInt i64)) c = c).
+  { rewrite <- (map_id c) at 2. eapply map_ext_Forall; [|exact Hc]. cbn beta. intros x Hx. apply wr_i64. lia. }
+  unfold m_triu, m_tril, s_triu_mask, s_tril_mask, arr_py, astype, cmp_arr. cbn [bind tdt tv].
+  rewrite Fk. cbn [bind tv]. rewrite !map_map. rewrite Er, Ec.
+  split; f_equal; clear; revert c; induction r as [|x r IH]; intros [|y c]; cbn; try reflexivity; rewrite IH; reflexivity.
 Qed.
 
 Example width_irrelevant_triu_nonvacuous :
-  std i8 /\ coords_in 100 [0; 50; 99] /\ triu_clause i8 100 (-20) = true /\
-  m_triu (DInt i8) [0; 50; 99] [0; 10; 99] (-20) = Ok [true; false; true].
-Proof. repeat split; try reflexivity; [unfold std; cbn; lia|repeat constructor; lia]. Qed.
+  coords_in 120 [100; 0] /\ coords_in 120 [5; 110] /\
+  m_triu (DInt i8) [100; 0] [5; 110] 100 = Ok [false; true] /\
+  m_tril (DInt u8) [100; 0] [5; 110] (-1) = Ok [true; false].
+Proof. repeat split; try reflexivity; repeat constructor; lia. Qed.
 
 (* ------------------------------------------------------------------ kron, pad, stack: promoted arithmetic *)
 Definition not_u64 (t : ity) : bool := sg t || (bits t <? 64).
@@ -640,8 +569,6 @@ Proof.
   destruct (Z.ltb_spec (bits t) 64); [lia|reflexivity].
 Qed.
 
-Lemma wr_i64 z : - 2 ^ 63 <= z < 2 ^ 63 -> wr (DInt i64) z = z.
-Proof. intros H. apply wr_fits; [cbn; lia|]. apply fits_iff. cbn. lia. Qed.
 
 Theorem width_irrelevant_pad_proof t n c p :
   std t -> not_u64 t = true -> coords_in n c -> 0 <= p -> n + p < 2 ^ 63 ->
@@ -691,11 +618,11 @@ Proof.
   rewrite (promote_u64 t St Hn). reflexivity.
 Qed.
 
-Theorem stack_dtype_proof t :
-  std t -> (not_u64 t = true -> m_stack_dtype (DInt t) = Ok (DInt i64)) /\
-           (not_u64 t = false -> m_stack_dtype (DInt t) = Raise IndexError).
+Theorem stack_dtype_proof t axis0 :
+  std t -> (not_u64 t = true -> m_stack (DInt t) axis0 = Ok (DInt i64)) /\
+           (not_u64 t = false -> m_stack (DInt t) axis0 = if axis0 then Ok DFloat else Raise TypeError).
 Proof.
-  intros St. unfold m_stack_dtype, s_stack_new_row. split; intros H.
+  intros St. unfold m_stack, m_stack_dtype, s_stack_new_row. split; intros H.
   - rewrite (promote_i64_l t St H). reflexivity.
   - rewrite (promote_u64 t St H). reflexivity.
 Qed.
@@ -704,7 +631,8 @@ Qed.
 Theorem promoted_ops_refuted_proof :
   exists t, std t /\
     m_pad (DInt t) [1] 1 = Raise TypeError /\ m_pad DInf [1] 1 = Ok (mkT DInf [2]) /\
-    m_kron (DInt t) [1] 3 [2] = Raise TypeError /\ m_stack_dtype (DInt t) = Raise IndexError.
+    m_kron (DInt t) [1] 3 [2] = Raise TypeError /\ m_stack (DInt t) true = Ok DFloat /\
+    m_stack (DInt t) false = Raise TypeError.
 Proof. exists u64. repeat split; try reflexivity. unfold std; cbn; lia. Qed.
 
 Example width_irrelevant_kron_nonvacuous :
@@ -888,3 +816,88 @@ Proof.
     repeat constructor.
   - vm_compute. congruence.
 Qed.
+
+(* ------------------------------------------------------------------ GCXS._from_coo: indices and indptr *)
+Lemma zsum_map_add {A} (f g : A -> Z) l :
+  zsum (map (fun r => f r + g r) l) = zsum (map f l) + zsum (map g l).
+Proof. induction l as [|a r IH]; [reflexivity|]. cbn [map]. unfold zsum in *. cbn [fold_right]. lia. Qed.
+
+Lemma indicator_sum_le x keys :
+  NoDup keys -> 0 <= zsum (map (fun r => if x =? r then 1 else 0) keys) <= 1.
+Proof.
+  intros H. induction H as [|k r Hn Hd IH]; [cbn; lia|].
+  cbn [map]. unfold zsum in *. cbn [fold_right].
+  destruct (Z.eqb_spec x k); [|lia].
+  subst. assert (E : fold_right Z.add 0 (map (fun r0 => if k =? r0 then 1 else 0) r) = 0).
+  { clear IH Hd. induction r as [|a r IHr]; [reflexivity|]. cbn [map fold_right].
+    destruct (Z.eqb_spec k a); [subst; exfalso; apply Hn; left; reflexivity|].
+    rewrite IHr; [lia|]. intros Hin. apply Hn. right. exact Hin. }
+  lia.
+Qed.
+
+Lemma count_sum_le keys l :
+  NoDup keys -> 0 <= zsum (map (fun r => count_eq r l) keys) <= Z.of_nat (length l).
+Proof.
+  intros Hk. induction l as [|x l IH].
+  - cbn [count_eq length]. replace (zsum (map (fun _ : Z => 0) keys)) with 0; [lia|].
+    induction keys; [reflexivity|]. cbn. unfold zsum in *. cbn. inversion Hk; subst. rewrite <- IHkeys by assumption. reflexivity.
+  - cbn [count_eq length]. rewrite Nat2Z.inj_succ.
+    rewrite (zsum_map_add (fun r => if x =? r then 1 else 0) (fun r => count_eq r l)).
+    pose proof (indicator_sum_le x keys Hk). lia.
+Qed.
+
+Lemma count_eq_nonneg v l : 0 <= count_eq v l.
+Proof. induction l as [|x l IH]; cbn [count_eq]; [lia|]. destruct (x =? v); lia. Qed.
+
+Lemma cumsum_bound l : forall acc,
+  Forall (fun c => 0 <= c) l -> Forall (fun v => acc <= v <= acc + zsum l) (cumsum_from acc l).
+Proof.
+  induction l as [|x r IH]; intros acc H; [constructor|].
+  inversion H; subst. cbn [cumsum_from]. unfold zsum. cbn [fold_right]. fold (zsum r).
+  assert (0 <= zsum r) by (clear - H3; induction H3; cbn; unfold zsum in *; cbn; lia).
+  constructor; [lia|]. eapply Forall_impl; [|apply (IH (acc + x) H3)]. cbn beta. lia.
+Qed.
+
+Lemma zrange_NoDup n : NoDup (zrange n).
+Proof.
+  unfold zrange. apply FinFun.Injective_map_NoDup; [|apply seq_NoDup].
+  intros a b H. apply Nat2Z.inj, H.
+Qed.
+
+Theorem width_irrelevant_from_coo_proof idx t rows cols lin :
+  std t -> match idx with Some (DInt ti) => std ti | Some _ => False | None => True end ->
+  0 < rows -> 0 < cols -> Z.max (Z.max rows cols) (Z.of_nat (length lin)) < 2 ^ 64 ->
+  rmap (fun p => (tv (fst p), tv (snd p))) (m_from_coo idx (DInt t) rows cols lin) =
+  rmap (fun p => (tv (fst p), tv (snd p))) (m_from_coo None DInf rows cols lin)
+  \/ m_from_coo idx (DInt t) rows cols lin = Raise ValueError.
+Proof.
+  intros St Hi Hr Hc Hm. unfold m_from_coo.
+  set (m := Z.max (Z.max rows cols) (Z.of_nat (length lin))) in *.
+  destruct (from_coo_dtype_proof idx t m St ltac:(lia) Hi) as [[t' [E [S' F']]]|E];
+    [|right; rewrite E; reflexivity].
+  left. rewrite E. cbn [bind rmap fst snd].
+  assert (Einf : m_from_coo_dtype None DInf m = Ok DInf) by reflexivity.
+  rewrite Einf. cbn [bind rmap fst snd].
+  rewrite (from_coo_digits_proof t' m lin 1 cols S' F' ltac:(lia)).
+  rewrite (from_coo_digits_proof t' m lin cols rows S' F' ltac:(lia)).
+  f_equal. f_equal.
+  set (rc := tv (s_from_coo_digit DInf lin cols rows)).
+  unfold assign_into, astype. cbn [tv].
+  replace (map (wr DInf) (0 :: cumsum_from 0 (map (fun r => count_eq r rc) (zrange rows))))
+    with (0 :: cumsum_from 0 (map (fun r => count_eq r rc) (zrange rows)))
+    by (generalize (0 :: cumsum_from 0 (map (fun r => count_eq r rc) (zrange rows))); intros l; induction l; cbn; congruence).
+  pose proof (std_pos t' S') as Hb.
+  apply map_wr_id; [exact Hb|].
+  assert (Hlen : length rc = length lin).
+  { unfold rc, s_from_coo_digit, assign_into, astype. cbn [tv]. rewrite !map_length. reflexivity. }
+  pose proof (count_sum_le (zrange rows) rc (zrange_NoDup rows)) as Hs. rewrite Hlen in Hs.
+  constructor; [apply fits_zero, Hb|].
+  eapply Forall_impl; [|apply (cumsum_bound _ 0)].
+  - cbn beta. intros v Hv. apply (fits_le t' m); [exact Hb|exact F'|lia].
+  - rewrite Forall_map. apply Forall_forall. intros r _. apply count_eq_nonneg.
+Qed.
+
+Example width_irrelevant_from_coo_nonvacuous :
+  rmap (fun p => (tv (fst p), tv (snd p))) (m_from_coo None (DInt i8) 3 100 [0; 5; 299]) = Ok ([0; 5; 99], [0; 2; 2; 3]) /\
+  m_from_coo (Some (DInt i8)) (DInt i16) 3 200 [0; 5; 599] = Raise ValueError.
+Proof. split; reflexivity. Qed.
